@@ -1,9 +1,32 @@
 (* C19 — boolean comparison of the model with observations of the implementation (used by K only),
-   plus the per-case inverse certificate  (lambda*I + sum v v^T) * S = I  evaluated exactly over Q. *)
-From Coq Require Import List Arith Bool QArith Qabs Qreduction.
+   plus the per-case inverse certificate  (lambda*I + sum v v^T) * S = I  evaluated exactly.
+   The generic model of C19/Model.v is executed here over Bignums' BigQ (certified arbitrary-precision
+   rationals on machine integers; every operation normalises) — the stdlib-Q instance of Model.v
+   computes the same values but ~10x slower under vm_compute. Literals cross as exact Q values. *)
+From Coq Require Import List Arith Bool QArith.
+From Bignums Require Import BigQ.
 Import ListNotations.
 From AgileV Require Import C19.Model.
 Local Open Scope nat_scope.
+
+Definition B0 : bigQ := BigQ.zero.
+Definition B1 : bigQ := BigQ.one.
+Definition Bstep := @step bigQ B0 B1 BigQ.add_norm BigQ.sub_norm BigQ.mul_norm BigQ.div_norm true.
+Definition Binit := @init_params bigQ B0 B1 BigQ.div_norm.
+Definition Bgram_step := @gram_step bigQ BigQ.add_norm BigQ.mul_norm.
+Definition Bmatmul := @matmul bigQ B0 BigQ.add_norm BigQ.mul_norm.
+Definition Bquad := @quad bigQ B0 BigQ.add_norm BigQ.mul_norm.
+Definition toB (M : list (list Q)) : list (list bigQ) := map (map BigQ.of_Q) M.
+Definition op_toB (o : @op Q) : @op bigQ :=
+  match o with
+  | Act v => Act (map BigQ.of_Q v)
+  | Learn => Learn
+  | MutHook l => MutHook l
+  | MutDirect l => MutDirect l
+  | Resize l => Resize l
+  | Clone => Clone
+  | Reload => Reload
+  end.
 
 Fixpoint forallb2 {A B} (f : A -> B -> bool) (a : list A) (b : list B) : bool :=
   match a, b with
@@ -12,10 +35,12 @@ Fixpoint forallb2 {A B} (f : A -> B -> bool) (a : list A) (b : list B) : bool :=
   | _, _ => false
   end.
 
-Definition qclose (tol a b : Q) : bool := Qle_bool (Qabs (a - b)) tol.
-Definition mat_close (tol : Q) (A B : list (list Q)) : bool := forallb2 (forallb2 (qclose tol)) A B.
-Definition mat_eq (A B : list (list Q)) : bool := forallb2 (forallb2 Qeq_bool) A B.
-Definition has_dims (r c : nat) (S : list (list Q)) : bool :=
+Definition bq_le (a b : bigQ) : bool := match BigQ.compare a b with Gt => false | _ => true end.
+Definition qclose (tol a b : bigQ) : bool :=
+  let d := BigQ.sub a b in bq_le d tol && bq_le (BigQ.opp d) tol.
+Definition mat_close (tol : bigQ) (A B : list (list bigQ)) : bool := forallb2 (forallb2 (qclose tol)) A B.
+Definition mat_eq (A B : list (list bigQ)) : bool := forallb2 (forallb2 BigQ.eqb) A B.
+Definition has_dims {T} (r c : nat) (S : list (list T)) : bool :=
   (length S =? r) && forallb (fun row => length row =? c) S.
 
 (* what the harness reports after every operation *)
@@ -28,48 +53,50 @@ Record obs1 := {
 }.
 
 (* certificate state: Some A while sigma_inv is claimed to be the inverse of A = lam*I + sum v v^T *)
-Definition cert_step (lam : Q) (c : option (list (list Q))) (o : @op Q) : option (list (list Q)) :=
+Definition cert_step (lam : bigQ) (c : option (list (list bigQ))) (o : @op bigQ) : option (list (list bigQ)) :=
   match o with
-  | Act v => match c with Some A => Some (Qgram_step A v) | None => None end
-  | MutHook new => Some (@scal_id Q 0%Q (layer_numel new) lam)
+  | Act v => match c with Some A => Some (Bgram_step A v) | None => None end
+  | MutHook new => Some (@scal_id bigQ B0 (layer_numel new) lam)
   | Resize _ => None
   | _ => c
   end.
 
-Definition check_state (lam tol : Q) (s : @bstate Q) (c : option (list (list Q))) (ob : obs1) : bool :=
+Definition check_state (lam tol : bigQ) (s : @bstate bigQ) (c : option (list (list bigQ))) (ob : obs1) : bool :=
   (numel s =? o_numel ob) && Bool.eqb (bound s) (o_bound ob) &&
   has_dims (o_rows ob) (o_cols ob) (sig s) && (layer_numel (live s) =? o_rows ob) &&
   match o_sigma ob with
   | None => true
   | Some M =>
-      mat_close (Qred (tol / lam)) (sig s) M &&
+      mat_close (BigQ.div_norm tol lam) (sig s) (toB M) &&
       (* model-side sanity, exact: symmetric; inverse certificate; radicands of all arms >= 0 *)
-      mat_eq (sig s) (@transpose_sq Q 0%Q (sig s)) &&
+      mat_eq (sig s) (@transpose_sq bigQ B0 (sig s)) &&
       match c with
-      | Some A => mat_eq (Qmatmul A (sig s)) (@scal_id Q 0%Q (length (sig s)) 1%Q)
+      | Some A => mat_eq (Bmatmul A (sig s)) (@scal_id bigQ B0 (length (sig s)) B1)
       | None => true
       end &&
-      forallb (fun g => Qle_bool 0 (Qquad (sig s) g)) (o_arms ob)
+      forallb (fun g => bq_le B0 (Bquad (sig s) (map BigQ.of_Q g))) (o_arms ob)
   end.
 
-Fixpoint check_trace (lam tol : Q) (s : @bstate Q) (c : option (list (list Q)))
-         (ops : list (@op Q)) (obs : list obs1) : bool :=
+Fixpoint check_trace (lam tol : bigQ) (s : @bstate bigQ) (c : option (list (list bigQ)))
+         (ops : list (@op bigQ)) (obs : list obs1) : bool :=
   match ops, obs with
   | [], [] => true
   | o :: ops', ob :: obs' =>
-      let s' := Qstep s o in
+      let s' := Bstep s o in
       let c' := cert_step lam c o in
       check_state lam tol s' c' ob && check_trace lam tol s' c' ops' obs'
   | _, _ => false
   end.
 
 (* a whole history: construction (init_params) observed first, then one observation per op *)
-Definition check_hist (lam tol : Q) (ly : layer) (ob0 : obs1) (ops : list (@op Q)) (obs : list obs1) : bool :=
-  let s0 := Qinit lam ly in
-  let c0 := Some (@scal_id Q 0%Q (layer_numel ly) lam) in
-  check_state lam tol s0 c0 ob0 && check_trace lam tol s0 c0 ops obs.
+Definition check_hist (lamq tolq : Q) (ly : layer) (ob0 : obs1) (ops : list (@op Q)) (obs : list obs1) : bool :=
+  let lam := BigQ.of_Q lamq in
+  let tol := BigQ.of_Q tolq in
+  let s0 := Binit lam ly in
+  let c0 := Some (@scal_id bigQ B0 (layer_numel ly) lam) in
+  check_state lam tol s0 c0 ob0 && check_trace lam tol s0 c0 (map op_toB ops) obs.
 
 (* unit level: Mutations._reinit_bandit_grads on an integer-tagged matrix, exact *)
 Definition check_resize (old new : layer) (dval : Q) (S M : list (list Q)) : bool :=
-  mat_eq (@reinit_bandit_grads Q 0%Q old new dval S) M &&
+  mat_eq (@reinit_bandit_grads bigQ B0 true old new (BigQ.of_Q dval) (toB S)) (toB M) &&
   has_dims (layer_numel new) (layer_numel new) M.
